@@ -1,15 +1,35 @@
-pub mod alloc;
-pub mod corpus;
+//! Verification harness for tiny-http.  Built twice: with `--cfg tiny_http_verif` (hooks
+//! on: the `check` binary, everything below) and without (the `realsock` conformance
+//! binary, which only uses the portable modules).
+
 pub mod gen;
 pub mod httpparse;
 pub mod infra;
-pub mod props;
-pub mod judge;
-pub mod l1;
-pub mod l2;
 pub mod refmodel;
+pub mod scenario;
+
+#[cfg(not(tiny_http_verif))]
+pub mod plainthread;
+
+#[cfg(tiny_http_verif)]
+pub mod alloc;
+#[cfg(tiny_http_verif)]
+pub mod conformance;
+#[cfg(tiny_http_verif)]
+pub mod corpus;
+#[cfg(tiny_http_verif)]
+pub mod judge;
+#[cfg(tiny_http_verif)]
+pub mod l1;
+#[cfg(tiny_http_verif)]
+pub mod l2;
+#[cfg(tiny_http_verif)]
+pub mod props;
+#[cfg(tiny_http_verif)]
 pub mod report;
+#[cfg(tiny_http_verif)]
 pub mod runner;
 
+#[cfg(tiny_http_verif)]
 #[global_allocator]
 static GLOBAL: alloc::Counting = alloc::Counting;
